@@ -111,6 +111,12 @@ VH_DRIVER(query){
     if(forced) allcaps=false;
     AW(true,k%2,[&]{ compose_events<ApiA>(ar,l,sp,nb,ep,allcaps); },[&]{ compose_events<ApiW>(ar,l,sp,nb,ep,allcaps); }); g.count(jq(l)+std::to_string(sp*2+nb),!l.empty()); if(k%3001==0) g.sample(J().str("list",showq(l)).num("sp",sp).num("nb",nb).done()); } }
   // dissection of every arrangement of & = a %41 + up to length 5 (6 thorough), plus random
+  // line-break conversion while dissecting: every arrangement up to length 4 (5 thorough) of CR, LF (escaped, either hex case), '+', space-less
+  // text and separators, under EVERY conversion mode and both plus settings (the unescaper carries a CR state across characters)
+  { std::vector<Text> bt={T("%0D"),T("%0A"),T("+"),T("a"),T("&"),T("="),T("%0d%0a")}; int BL=g.thorough?5:4; long q=0;
+    for(int len=1;len<=BL;++len){ std::vector<int> ix(len,0); while(true){ Text t; bool br=false; for(int i=0;i<len;++i){ t.insert(t.end(),bt[ix[i]].begin(),bt[ix[i]].end()); if(ix[i]<2||ix[i]==6) br=true; }
+        if(br) for(int ps=0;ps<2;++ps) for(int conv=0;conv<4;++conv){ ++q; int ep=(int)((q>>3)%3); AW(true,q%2,[&]{ dissect_event<ApiA>(ar,t,ps,conv,ep); },[&]{ dissect_event<ApiW>(ar,t,ps,conv,ep); }); g.count(jtext(t)+"b"+std::to_string(ps*4+conv),true); }
+        int i=len-1; while(i>=0&&++ix[i]==(int)bt.size()){ ix[i]=0; --i; } if(i<0) break; } } }
   { std::vector<Text> toks={T("&"),T("="),T("a"),T("%41"),T("+"),T("%0D%0A"),T("%")}; int DL=g.thorough?6:4; std::vector<Text> ins;
     for(int len=0;len<=DL;++len){ std::vector<int> ix(len,0); while(true){ Text t; for(int i=0;i<len;++i) t.insert(t.end(),toks[ix[i]].begin(),toks[ix[i]].end()); ins.push_back(t); int i=len-1; while(i>=0&&++ix[i]==(int)toks.size()){ ix[i]=0; --i; } if(i<0) break; } }
     double kd= ins.size()*2>(size_t)want/3? (double)(want/3)/(ins.size()*2):1.0; long q=0;
